@@ -12,6 +12,9 @@
              free names (read minus locally bound, nonlocal-declared included);
              free_vars uses the same formula; copy_from / merge_from agree
  SC-ASDL     field types in activity.py and qual_names.py
+ ACT-TRAV    every handler of ActivityAnalyzer / QnResolver visits every field
+             that can hold a symbol on every path
+ ACT-ORDER   comprehension iterable visited before its target is registered
 """
 import ast
 
@@ -19,6 +22,7 @@ from sa import asdl
 from sa import core
 from sa import pat
 from sa import pycfg
+from sa import rules_trav
 from sa import setalg
 from sa.formula import atom, implies, equivalent, TRUE
 from sa.props import C05 as _c05
@@ -45,6 +49,23 @@ def _adds(fn, setname):
   return out
 
 
+TRAV_EXCEPTIONS = {
+    ('FunctionDef', 'type_params'): 'PEP 695 type parameters: outside the '
+    'supported subset (no converter or analysis handles them)',
+}
+
+
+def analysis_traversal(model, rep, rule='ACT-TRAV', order_rule='ACT-ORDER'):
+  rules_trav.analysis_trav(model, rep, rule, ACT, 'ActivityAnalyzer', TRAV_EXCEPTIONS)
+  rules_trav.analysis_trav(model, rep, rule, QN, 'QnResolver', TRAV_EXCEPTIONS)
+  rules_trav.visit_order(
+      model, rep, order_rule, ACT, 'ActivityAnalyzer', 'visit_comprehension',
+      'iter', 'target',
+      'the iterable of a comprehension clause is evaluated in the enclosing '
+      'scope: it must be visited before the clause target is registered, or a '
+      'read of an outer variable of the same name (`[.. for x in x]`) is dropped')
+
+
 def check(model, rep, tier):
   rep.not_decided = ('exact equality with symtable on every program; dynamic '
                      'per-statement read/write sets; comprehension targets and '
@@ -55,8 +76,15 @@ def check(model, rep, tier):
   rep.rule('PARAMS', 'parameter kinds and defaults', floor=3)
   rep.rule('FINALIZE', 'upward propagation formulas', floor=8)
   rep.rule('SC-ASDL', 'field types', floor=30)
+  rep.rule('ACT-TRAV', 'every handler of the activity analysis and of the '
+           'qualified-name resolver visits every field that can hold a symbol, '
+           'on every path', floor=25)
+  rep.rule('ACT-ORDER', 'visit order the scoping rules rely on', floor=1)
 
   cls = model.cls(ACT, 'ActivityAnalyzer')
+
+  # ---------------------------------------------------------------- ACT-TRAV
+  analysis_traversal(model, rep)
 
   # ---------------------------------------------------------------- BIND-EXH
   # completeness of the table: every identifier-typed binding field of the
